@@ -236,22 +236,39 @@ func ruleC11Sync(c *Ctx) {
 	if fn := c.Anchor(rule, "sync.GetDeleteCandidateChain"); fn != nil {
 		R := NewRenderer(fn)
 		var slices []ssa.Instruction
+		chain := "phi{append(…,&var(varargs)[:]) | nil}"
+		idx := "phi{* | 0}"
+		viaFind := false
 		eachInstr(fn, func(in ssa.Instruction) {
-			if s, ok := in.(*ssa.Slice); ok && strings.HasSuffix(R.V(s), "[+1:+phi{* | 0}]") {
-				slices = append(slices, in)
+			if s, ok := in.(*ssa.Slice); ok {
+				switch r := R.V(s); {
+				case strings.HasSuffix(r, "[+1:+phi{* | 0}]"):
+					slices = append(slices, in)
+				case strings.HasSuffix(r, "[+1:+sync.find("+chain+",$1)]"):
+					// the position comes from the package's own search helper
+					slices = append(slices, in)
+					idx, viaFind = "sync.find("+chain+",$1)", true
+				}
 			}
 		})
-		chain := "phi{append(…,&var(varargs)[:]) | nil}"
 		if len(slices) == 0 {
 			c.Bad(rule, FnName(fn)+" | candidate range is chain[1:indx]", "", "no slice of the chain from 1 up to (excluding) the checkpoint's index", nil)
 		} else {
+			foundNeed := atom("checkpoint found in chain", "phi{false | true}")
+			if viaFind {
+				// find answers -1 when the item is absent: indx >= 2 implies "found"
+				foundNeed = atom("checkpoint found in chain (find() >= 2)", "+"+idx+" -2 >=0")
+			}
 			c.Guard(rule, fn, slices[:1], "candidates = chain[1:indx]", nil,
-				atom("checkpoint found in chain", "phi{false | true}"),
-				atom("checkpoint not base nor the one above it", "+phi{* | 0} -2 >=0"),
+				foundNeed,
+				atom("checkpoint not base nor the one above it", "+"+idx+" -2 >=0"),
 				atom("chain longer than head+latest+base", "+len("+chain+") -4 >=0"),
 				atom("checkpoint given", neAtom(`""`, "$1")))
 			// the index is where the checkpoint was found
 			found := false
+			if viaFind {
+				found = findIsFirstIndexOrMinusOne(c)
+			}
 			for _, ea := range allAtoms(fn, R) {
 				if ea.Atom.String() == eqAtom("$1", chain+"[*]") {
 					found = true
@@ -277,7 +294,7 @@ func ruleC11Sync(c *Ctx) {
 				c.Bad(rule, FnName(fn)+" | chain walked base first", "", "the base-first copy of the chain is built differently", nil)
 			}
 		}
-		cand := chain + "[+1:+phi{* | 0}][*]"
+		cand := chain + "[+1:+" + idx + "][*]"
 		D := fRep + "ListDisks($0)[" + cand + "]"
 		Pp := fRep + "ListDisks($0)[" + D + ".Parent]"
 		var names []ssa.Instruction
@@ -364,6 +381,39 @@ func ruleC11Sync(c *Ctx) {
 		}
 	}
 	c.Floor(rule, 14)
+}
+
+// findIsFirstIndexOrMinusOne: sync.find(list, item) returns a range index of list only on the
+// edge list[i] == item, and the constant -1 otherwise.
+func findIsFirstIndexOrMinusOne(c *Ctx) bool {
+	fn := c.P.Fn("sync.find")
+	if fn == nil || len(fn.Blocks) == 0 {
+		return false
+	}
+	R := NewRenderer(fn)
+	okAll, hit := true, false
+	for _, r := range Returns(fn) {
+		if len(r.Results) != 1 {
+			return false
+		}
+		if cst, ok := strip(r.Results[0]).(*ssa.Const); ok {
+			if cst.Value == nil || cst.Value.ExactString() != "-1" {
+				okAll = false
+			}
+			continue
+		}
+		if R.V(r.Results[0]) != "*" {
+			okAll = false
+			continue
+		}
+		ws := Query{Fn: fn, IsSite: func(in ssa.Instruction) bool { return in == ssa.Instruction(r) },
+			GenEdge: atomEdgesDirect(fn, R, eqAtom("$0[*]", "$1"), eqAtom("$1", "$0[*]"))}.Run()
+		if len(ws) > 0 {
+			okAll = false
+		}
+		hit = true
+	}
+	return okAll && hit
 }
 
 // ---------------------------------------------------------------------------
